@@ -1,4 +1,4 @@
-import Mochi.Lemmas.CodecRoundtrip
+import Mochi.Lemmas.PropsRoundtrip
 import Mochi.Lemmas.CodecNoPanic
 /-!
 # C26 — Packet codec round-trips every well-formed packet
@@ -18,10 +18,6 @@ correspondence run (`c.reenc`, spec verdict `Q`).
 -/
 namespace Mochi.Codec
 open Mochi.Varint
-
-/-- well-formedness of a string field -/
-def wfStr (s : Str) : Prop := s.length < 65536 ∧ validUTF8 s = true
-def wfBin (s : Str) : Prop := s.length < 65536
 
 /-- the full-strength statement for one packet (kept visible) -/
 def C26_full_statement (norm : Packet → Packet) (WF : Packet → Prop) : Prop :=
